@@ -90,7 +90,7 @@ func (pass *DisjunctionInferMapping) inferDiscriminatorField(schema *ast.Schema,
 
 	// Identify candidates from each branch
 	for _, branch := range def.Branches.NonNullTypes() {
-		referredType, found := schema.Resolve(branch)
+		referredType, found := pass.schemas.Resolve(branch)
 		if !found {
 			continue
 		}
@@ -170,7 +170,7 @@ func (pass *DisjunctionInferMapping) buildDiscriminatorMapping(schema *ast.Schem
 	}
 
 	for _, branch := range def.Branches.NonNullTypes() {
-		referredType, found := schema.Resolve(branch)
+		referredType, found := pass.schemas.Resolve(branch)
 		if !found {
 			return nil, fmt.Errorf("could not resolve reference '%s'", branch.AsRef().String())
 		}
